@@ -202,6 +202,15 @@ class FakePath(object):
     def realpath(self, p):
         return self.fs.realpath(p)
 
+    def getsize(self, p):
+        q = self.fs.realpath(p)
+        data = self.fs.content.get(q) if q in self.fs.kind else self.fs.outside.get(q)
+        if q in self.fs.kind and not self.fs._t(self.fs._is(q, FILE)):
+            data = None
+        if data is None:
+            raise OSError(errno.ENOENT, "No such file or directory", p)
+        return len(data.encode("utf-8") if isinstance(data, str) else data)
+
     abspath = staticmethod(posixpath.abspath)
     normpath = staticmethod(posixpath.normpath)
     isabs = staticmethod(posixpath.isabs)
@@ -389,6 +398,14 @@ def check_step(fs, op, result, before, T, state):
         state["id"] = result
         # the identifier can only persist when its directory exists (write_to_disk ignores missing directories by design)
         state["persisted"] = T(fs.dir_exists(DIRS[0]))
+        if state["persisted"]:
+            # the client's own "is there an identifier?" question (asked before every status check) agrees with the read
+            try:
+                there = U.machine_id_exists()
+            except Exception as ex:  # noqa
+                there = ex
+            if not (there is True or (not isinstance(there, (bool, Exception)) and bool(there))):
+                bad.append("%s returned the identifier %r but machine_id_exists() answers %r" % (op, result, there))
     return bad
 
 
@@ -590,6 +607,8 @@ def _native(case):
                             bad.append("step %d: a read rewrote the existing identifier file" % i)
                     state["id"] = res
                     state["persisted"] = os.path.isdir(dmap[DIRS[0]])
+                    if state["persisted"] and not U.machine_id_exists(destination_file=mp[MID]):
+                        bad.append("step %d: %s returned the identifier %r but machine_id_exists() answers False" % (i, op, res))
         finally:
             constants.registered_files, constants.unregistered_files, constants.machine_id_file, U._get_rhsm_identity = saved
         return bad
